@@ -72,10 +72,13 @@ pub(crate) fn pad_upsampling(
         .unwrap_or(color_upsample_factor);
 
     if max_upsample_factor > 0 {
+        // Extra channels are brought to the resolution of color channels first when the frame has
+        // patches; samples used by the second step need their own neighbors in the first step.
+        let two_steps = color_upsample_factor > 0 && max_upsample_factor > color_upsample_factor;
         // Additional upsampling pass is needed for every 3 levels of upsampling factor.
         frame_region
             .downsample(max_upsample_factor)
-            .pad(2 + (max_upsample_factor - 1) / 3)
+            .pad(2 + (max_upsample_factor - 1) / 3 + two_steps as u32)
             .upsample(max_upsample_factor)
     } else {
         frame_region
